@@ -71,9 +71,64 @@ func Load(dir string, patterns []string, overlay map[string][]byte) (*Verifier, 
 
 func (v *Verifier) indexFunctions() {
 	v.funcsByKey = map[string][]*ssa.Function{}
-	all := ssautil.AllFunctions(v.Prog)
+	roots := map[*ssa.Package]bool{}
+	for _, p := range v.SSAPkgs {
+		if p != nil {
+			roots[p] = true
+		}
+	}
+	seen := map[*ssa.Function]bool{}
+	var work []*ssa.Function
+	add := func(f *ssa.Function) {
+		if f == nil || seen[f] {
+			return
+		}
+		seen[f] = true
+		work = append(work, f)
+	}
+	for p := range roots {
+		for _, m := range p.Members {
+			switch x := m.(type) {
+			case *ssa.Function:
+				add(x)
+			case *ssa.Type:
+				for _, t := range []types.Type{x.Type(), types.NewPointer(x.Type())} {
+					if n, ok := x.Type().(*types.Named); ok && n.TypeParams().Len() > 0 {
+						continue // uninstantiated generic type
+					}
+					ms := v.Prog.MethodSets.MethodSet(t)
+					for i := 0; i < ms.Len(); i++ {
+						add(v.Prog.MethodValue(ms.At(i)))
+					}
+				}
+			}
+		}
+	}
+	for len(work) > 0 {
+		f := work[len(work)-1]
+		work = work[:len(work)-1]
+		deep := f.Pkg == nil || roots[f.Pkg]
+		if !deep {
+			continue
+		}
+		for _, af := range f.AnonFuncs {
+			add(af)
+		}
+		for _, b := range f.Blocks {
+			for _, ins := range b.Instrs {
+				for _, op := range ins.Operands(nil) {
+					if op == nil || *op == nil {
+						continue
+					}
+					if g, ok := (*op).(*ssa.Function); ok {
+						add(g)
+					}
+				}
+			}
+		}
+	}
 	var fns []*ssa.Function
-	for f := range all {
+	for f := range seen {
 		fns = append(fns, f)
 	}
 	sort.Slice(fns, func(i, j int) bool { return fns[i].String() < fns[j].String() })
@@ -85,6 +140,9 @@ func (v *Verifier) indexFunctions() {
 			continue // uninstantiated generic body
 		}
 		if p := f.Parent(); p != nil && p.TypeParams().Len() > 0 && len(p.TypeArgs()) == 0 {
+			continue
+		}
+		if len(f.Blocks) == 0 {
 			continue
 		}
 		k := v.funcKey(f)
@@ -133,8 +191,14 @@ func (v *Verifier) contractFor(f *ssa.Function) *FuncContract {
 	}
 	// rendered runtime: contracts keyed "runtime:<name>" apply to any package
 	if f.Parent() == nil {
-		if c, ok := v.CS.Funcs["runtime."+shortFuncName(f)]; ok {
+		sn := shortFuncName(f)
+		if c, ok := v.CS.Funcs["runtime."+sn]; ok {
 			return c
+		}
+		if i := strings.Index(sn, "."); i >= 0 {
+			if c, ok := v.CS.Funcs["runtime.@"+sn[i:]]; ok {
+				return c
+			}
 		}
 	}
 	return nil
@@ -219,7 +283,7 @@ func (v *Verifier) VerifyFunc(fn *ssa.Function, ct *FuncContract, display string
 		touched: map[string]bool{}, escaping: map[*ssa.Alloc]bool{}, cellRef: map[*ssa.Alloc]string{}, fnCells: map[*ssa.Alloc]Val{},
 		callOrd: map[string]int{}, ghostDecl: map[string]bool{}, skip: map[string]bool{},
 		edgeCond: map[[2]*ssa.BasicBlock]string{}, outSt: map[*ssa.BasicBlock]*State{}, blockReach: map[*ssa.BasicBlock]string{},
-		paramCell: map[*ssa.Alloc]string{}, paramAlloc: map[*ssa.Alloc]string{},
+		paramCell: map[*ssa.Alloc]string{}, opaqueComps: map[string][]string{}, paramAlloc: map[*ssa.Alloc]string{},
 	}
 	fc.typeArgs = typeArgsOf(fn)
 	defer func() {
@@ -279,6 +343,9 @@ func (v *Verifier) VerifyFunc(fn *ssa.Function, ct *FuncContract, display string
 		for _, r := range fc.C.Requires {
 			fc.assume(reach, fc.evalBool(env, r.E))
 		}
+	}
+	if fc.C != nil && len(fc.C.EntryHints) > 0 {
+		fc.applyHints(fc.funcEnv(st), fc.C.EntryHints, "entryhint%d", reach)
 	}
 	// vacuity probe: the precondition (with type invariants) must be satisfiable
 	fc.obls = append(fc.obls, &Obligation{Name: display + "/vacuity/requires-satisfiable", Func: display, Kind: "vacuity", Goal: "false", Reach: "true", N: len(fc.script), fc: fc, Text: "probe: must be SAT"})
